@@ -311,8 +311,20 @@ Fixpoint tar_stream_ok (ms : list mkind) : bool :=
   end.
 Definition sections_ok (ms : list mkind) (n : nat) : bool :=
   tar_stream_ok (firstn 1 (skipn (n - 2) ms)) && tar_stream_ok (skipn (n - 1) ms).
+(* fix 3bc1979: the arm `case 2` begins with `if sw.maxStreams == 3 { return error }` (the guards goextract
+   reads: expand_switch_arm_guards). maxStreams after the loop: raised by sw.Next() at the start of the second
+   member when the first member's first entry is a signature. A signature followed by ONE member is an error now
+   (before the fix it was read as an unsigned package whose control section was the signature). *)
+Definition expand_final_max (ms : list mkind) : Z :=
+  match ms with
+  | MSign :: _ :: _ => Z.of_nat (snd expand_max_streams)
+  | _ => Z.of_nat (fst expand_max_streams)
+  end.
+Definition arm_refuses (guards : list (Z * Z)) (n maxs : Z) : bool :=
+  existsb (fun g => (fst g =? n)%Z && (snd g =? maxs)%Z) guards.
 Definition expand_apk (ms : list mkind) (garbage : bool) : res bool :=
   do n <- expand_loop ms garbage None (-1)%Z (Z.of_nat (fst expand_max_streams)) O;
+  if arm_refuses expand_switch_arm_guards (Z.of_nat n) (expand_final_max ms) then Err else
   do signed <- expand_select (Z.of_nat n);
   if sections_ok ms n then Ok signed else Err.
 
